@@ -170,15 +170,35 @@ MNT_OPTS = [b"rw", b"rw,relatime", b"ro,nosuid,nodev,noexec", b"rw,size=100k", b
             b"rw,iocharset=\xe9", b"\x80"]
 
 
+def _is_utf8(b_):
+    try:
+        b_.decode("utf-8")
+        return True
+    except UnicodeDecodeError:
+        return False
+
+
 def mounts_case():
+    # type / options that are not UTF-8 make the whole call fail (by design of
+    # the extension): allowed in one case out of five only, otherwise every
+    # long table would end there and the semantic comparison would never run
+    return st.sampled_from([False, False, False, False, True]).flatmap(_mounts_case)
+
+
+def _mounts_case(undecodable):
+    types = MNT_TYPE if undecodable else [t for t in MNT_TYPE if _is_utf8(t)]
+    optss = MNT_OPTS if undecodable else [t for t in MNT_OPTS if _is_utf8(t)]
+    junk = st.binary(max_size=30).map(lambda b: b.replace(b"\n", b" ").replace(b"\0", b" "))
+    if not undecodable:
+        junk = junk.map(lambda b: b if _is_utf8(b) else b.decode("latin-1").encode("ascii", "replace"))
     line = st.one_of(
-        st.tuples(st.sampled_from(MNT_DEV), st.sampled_from(MNT_DIR), st.sampled_from(MNT_TYPE),
-                  st.sampled_from(MNT_OPTS), st.sampled_from([b"0 0", b"1 2", b"", b"0"]),
+        st.tuples(st.sampled_from(MNT_DEV), st.sampled_from(MNT_DIR), st.sampled_from(types),
+                  st.sampled_from(optss), st.sampled_from([b"0 0", b"1 2", b"", b"0"]),
                   st.sampled_from([b" ", b"\t", b"  ", b" \t "])).map(
             lambda t: t[5].join([t[0], t[1], t[2], t[3]]) + (b" " + t[4] if t[4] else b"")),
         st.sampled_from([b"", b"# a comment", b"   ", b"onlydevice", b"dev /mnt", b"dev /mnt ext4",
                          b"\t/dev/sdb1 /lead ext4 rw 0 0", b"#/dev/sdc /c ext4 rw 0 0"]),
-        st.binary(max_size=30).map(lambda b: b.replace(b"\n", b" ").replace(b"\0", b" ")),
+        junk,
     )
     fsline = st.sampled_from([b"nodev\tsysfs", b"nodev\ttmpfs", b"nodev\tproc", b"\text4", b"\txfs",
                               b"nodev\tzfs", b"\tbtrfs", b"nodev\toverlay", b"\tfuseblk"])
